@@ -233,3 +233,12 @@ func vToYaml(n *CandidateNode) (string, error) {
 type vSBWriter struct{ sb *strings.Builder }
 
 func (w vSBWriter) Write(p []byte) (int, error) { return w.sb.Write(p) }
+
+// vDigits / vKeyRange: the byte ranges symbolic digits and keys are drawn from. The thorough tier widens them
+// (parameter wide=1): all ten digits and keys a..e.
+func vDigits() string {
+	if verifParam("wide", 0) == 1 {
+		return "09"
+	}
+	return "03"
+}
